@@ -81,6 +81,13 @@ int main(int argc, char* argv[])
 
 	for(int arg = 1, default_arguments = 0; arg < argc; arg++)
 	{
+		bool needs_operand = !strcmp(argv[arg], "-o") || !strcmp(argv[arg], "--output")
+			|| !strcmp(argv[arg], "-f") || !strcmp(argv[arg], "--format");
+		if(needs_operand && (arg + 1) >= argc)
+		{
+			std::cerr << "option " << argv[arg] << " requires an argument\n";
+			return -1;
+		}
 		if((!strcmp(argv[arg], "-o") || !strcmp(argv[arg], "--output")) && arg < argc)
 			out_filename = argv[++arg];
 		else if((!strcmp(argv[arg], "-f") || !strcmp(argv[arg], "--format")) && arg < argc)
